@@ -25,7 +25,7 @@ import (
 	"verif/harness/simnet"
 )
 
-var c15DiscClasses = []string{"decode-bits", "decode-truncate", "decode-random", "decode-rehash", "decode-node-packets",
+var c15DiscClasses = []string{"decode-bits", "decode-truncate", "decode-random", "decode-rehash", "decode-resigned", "decode-node-packets",
 	"ping-valid", "ping-expired", "ping-wrong-version", "findnode-unbonded", "findnode-bonded", "findnode-expired",
 	"unsolicited-replies", "replay", "oversize", "hostile-values", "unknown-type", "neighbors-solicited", "blind-pong", "flood"}
 
@@ -65,6 +65,16 @@ func c15NeighborsBody(nodes [][]byte, exp uint64) []byte {
 // c15Packet = hash(32) || signature(65) || type(1) || rlp body
 func c15Packet(key *ecdsa.PrivateKey, ptype byte, body []byte) []byte {
 	sigdata := append([]byte{ptype}, body...)
+	sig, err := crypto.Sign(crypto.Keccak256(sigdata), key)
+	if err != nil {
+		panic(err)
+	}
+	rest := append(sig, sigdata...)
+	return append(crypto.Keccak256(rest), rest...)
+}
+
+// c15Envelope wraps arbitrary signed data (normally type byte + body) in a VALID envelope: signature by key, hash on top.
+func c15Envelope(key *ecdsa.PrivateKey, sigdata []byte) []byte {
 	sig, err := crypto.Sign(crypto.Keccak256(sigdata), key)
 	if err != nil {
 		panic(err)
@@ -441,6 +451,59 @@ func c15RunDisc(c *fw.C, caseID string, parts []string) {
 			}
 			ok++
 			c.SetAdd("disc_reject_reasons", c15ErrClass(err))
+		}
+	case "decode-resigned":
+		// hash and signature are no secrets: the sender signs whatever it sends with its own key. Valid envelopes around
+		// every prefix of every packet's signed part (from nothing at all — not even the type byte — to the whole
+		// body), around every type byte without a body, and around random bodies: never a panic, the node stays alive,
+		// and a truncated body is never decoded as a packet.
+		key := hostile.key
+		for _, nme := range names {
+			full := samples[nme][32+65:]
+			for k := 0; k <= len(full); k++ {
+				buf := c15Envelope(key, full[:k])
+				_, _, _, err, pnc, stack := c15TryDecode(buf)
+				c.Eval(1)
+				if pnc != nil {
+					d.panicViolation(class, fmt.Sprintf("%s signed part cut to %d bytes, valid envelope", nme, k), buf, pnc, stack)
+					continue
+				}
+				if k == 0 && err == nil {
+					c.Violation("discovery-corrupt-packet-accepted "+class, map[string]interface{}{"what": "envelope without type byte", "datagram_hex": fmt.Sprintf("%x", buf)})
+					continue
+				}
+				ok++
+				c.SetAdd("disc_reject_reasons", c15ErrClass(err))
+				if k < 3 || k%7 == 0 {
+					feed(fmt.Sprintf("%s signed part cut to %d bytes", nme, k), d.ident(false).addr, buf, k%2 == 0)
+				}
+			}
+		}
+		for pt := 0; pt < 256; pt++ {
+			buf := c15Envelope(key, []byte{byte(pt)})
+			_, _, _, _, pnc, stack := c15TryDecode(buf)
+			c.Eval(1)
+			if pnc != nil {
+				d.panicViolation(class, fmt.Sprintf("type byte %d without body, valid envelope", pt), buf, pnc, stack)
+				continue
+			}
+			ok++
+			feed(fmt.Sprintf("type byte %d without body", pt), d.ident(false).addr, buf, pt%2 == 0)
+		}
+		for i := 0; i < 600; i++ {
+			body := make([]byte, rng.Intn(300))
+			rng.Read(body)
+			if len(body) > 0 && rng.Intn(2) == 0 {
+				body[0] = byte(1 + rng.Intn(4))
+			}
+			buf := c15Envelope(key, body)
+			_, _, _, _, pnc, stack := c15TryDecode(buf)
+			c.Eval(1)
+			if pnc != nil {
+				d.panicViolation(class, "random signed part, valid envelope", buf, pnc, stack)
+				continue
+			}
+			ok++
 		}
 	case "decode-node-packets":
 		// genuine packets produced by the node itself (pong, bonding ping, neighbors), every bit flipped
